@@ -19,7 +19,7 @@ BLOCKS_T = [1, 4, 8, 4096]
 
 
 def sample_bytes(width, s, c, f, order):
-    v = (s * 3 + c) * 8 + f + 1            # 1..69, distinct per (stream, channel, frame)
+    v = ((s * 3 + c) * 8 + f) % 127 + 1    # 1..127; distinct per (stream, channel, frame) for the short streams
     if width == 1:
         b = bytes([v])
     elif width == 2:
@@ -149,9 +149,24 @@ class Check(CheckBase):
                     for first in stream_cfgs(fr):
                         out.append({"width": width, "block": block, "host": host, "k": 2, "first": list(first), "frames": fr})
                         out.append({"width": width, "block": block, "host": host, "k": 3, "first": list(first), "frames": fr})
+        # long streams against the real 4096-byte block: lengths around one and two blocks
+        for width in (1, 2, 4):
+            out.append({"width": width, "block": 4096, "host": "little", "k": 0, "long": True})
         return out
 
     def run_shard(self, shard, rep: Report):
+        if shard.get("long"):
+            width = shard["width"]
+            per = 4096 // width
+            lens = sorted({per - 1, per, per + 1, 2 * per, 2 * per + 1, per // 2, per // 2 + 1})
+            with Env(4096, "little") as env:
+                one = [(ch, o, f, t) for ch in (1, 2) for o in ("L", "B") for f in lens for t in (0, 1)]
+                gens = [(c,) for c in one] + [(a, b) for a in one[::3] for b in one[::5]]
+                for cfgs in gens:
+                    ok, klass, detail = run_case(env, width, cfgs)
+                    case = {"width": width, "block": 4096, "host": "little", "cfgs": [list(c) for c in cfgs]}
+                    rep.case(case, ok=ok, klass="long:" + klass, nontrivial=True, detail=detail, sig="long:" + klass)
+            return
         if "replay_case" in shard:
             c = shard["replay_case"]
             with Env(c["block"], c["host"]) as env:
